@@ -31,7 +31,9 @@ CONSTANTS N,            \* number of validators; indices 1..N = order of Validat
           Power,        \* sequence of voting powers
           ProposerOf,   \* ProposerOf[h][r] = index of the proposer of round r at height h
           InvalidBids,  \* block ids that fail cstate.validateBlock
-          SkipTimeoutCommit  \* config.IsSkipTimeoutCommit
+          SkipTimeoutCommit, \* config.IsSkipTimeoutCommit
+          WaitForTxs         \* config.WaitForTxs() with CreateEmptyBlocksInterval > 0 (the default configuration):
+                             \* round 1 of a height is proposed when the NewRound timeout fires
 
 Idx  == 1..N
 NoB  == "none"     \* no block / no vote
@@ -199,7 +201,8 @@ EnterNewRound(c, h, r, env) ==
                            !.pblock   = IF r = 1 THEN @ ELSE NoB,
                            !.pparts   = IF r = 1 THEN @ ELSE NoParts]
            s2 == SetRound(s1, r + 1)
-       IN EnterPropose(SetS(c, s2), h, r, env)       \* WaitForTxs() is false in every configuration used
+       IN IF WaitForTxs /\ r = 1 THEN ScheduleTimeout(SetS(c, s2), h, r, NewRound)   \* CreateEmptyBlocksInterval
+          ELSE EnterPropose(SetS(c, s2), h, r, env)
 
 (****************************** inputs ******************************)
 \* setProposal.  p = [h, r, pol, bid, i, sigOK]; the signature is checked against the proposer of the
